@@ -13,8 +13,9 @@ caller reports that as a broken obligation of every lemma group that needs the c
 EXPRESSION GRAMMAR (both files)
     e ::= int literal | float literal (decimal text, read as the exact decimal rational: 0.5 = 1/2, 1e-3 = 1/1000)
         | e + e | e - e | e * e | e / e | - e | + e | ( e )
-        | numpy.sqrt(e)
-        | <local name bound once, earlier, by `name = e` or `n1, n2 = e1, e2`>
+        | numpy.sqrt(e) | numpy.reciprocal(e)  (= 1 / e: every array of these formulas is float64)
+        | <local name bound once, earlier, by `name = e`, `n1, n2 = e1, e2` or `n1, .., nk = helper(..)` where the
+           helper returns a literal k-tuple (component-wise inlining)>
         | f(a1, .., an)   INLINED call of a helper: a plain `def f(p1, .., pn)` (no decorators, defaults, * / **,
                           nested defs, lambdas, global/nonlocal, yield) that is the ONLY binding of `f` in the module
                           (calculator.py: module level; static.py: module level, or directly in main() before the VRH
@@ -257,6 +258,10 @@ class Expr:
                 if len(e.args) != 1 or e.keywords:
                     self.bail(e, "numpy.sqrt with other than one positional argument")
                 return "(fsqrt %s)" % self.tr(e.args[0])
+            if f == "numpy.reciprocal":      # 1 / x on float arrays (every array of these formulas is float64)
+                if len(e.args) != 1 or e.keywords:
+                    self.bail(e, "numpy.reciprocal with other than one positional argument")
+                return "((ofZ 1) / %s)" % self.tr(e.args[0])
             if isinstance(e.func, ast.Name) and e.func.id not in self.locals:
                 fn = self.root.find_helper(e.func.id, e)
                 if fn is not None:
@@ -298,17 +303,19 @@ class Expr:
                 and all(isinstance(t, ast.Name) for t in stmt.targets[0].elts) \
                 and not any(isinstance(v, ast.Starred) for v in stmt.value.elts):
             pairs = list(zip(stmt.targets[0].elts, stmt.value.elts))
+        elif ok and isinstance(stmt.targets[0], ast.Tuple) and all(isinstance(t, ast.Name) for t in stmt.targets[0].elts) \
+                and isinstance(stmt.value, ast.Call) and isinstance(stmt.value.func, ast.Name) \
+                and stmt.value.func.id not in self.locals and self.root.find_helper(stmt.value.func.id, stmt) is not None:
+            # n1, .., nk = helper(..) where the helper returns a k-tuple: component-wise
+            tgts = stmt.targets[0].elts
+            names = [t.id for t in tgts]
+            self.check_new_names(stmt, names)
+            terms = self.inline(stmt.value, self.root.find_helper(stmt.value.func.id, stmt), tuple_len=len(tgts))
+            return [(t.id, prefix + t.id, term, stmt.value) for t, term in zip(tgts, terms)]
         else:
-            self.bail(stmt, "statement `%s` (only `name = expression` or `n1, n2 = e1, e2`)" % src_of(stmt)[:120])
+            self.bail(stmt, "statement `%s` (only `name = expression`, `n1, n2 = e1, e2` or `n1, n2 = helper(..)`)" % src_of(stmt)[:120])
         names = [t.id for t, _ in pairs]
-        for name in names:
-            if name in self.locals or name in self.intvars or name in self.arrvars or name in self.unitvars \
-                    or names.count(name) > 1:
-                self.bail(stmt, "name `%s` is assigned twice (locals and parameters are single-assignment)" % name)
-            if name in self.RESERVED or self.is_reserved(name):
-                self.bail(stmt, "assignment to the reserved name `%s`" % name)
-            if not re.fullmatch(IDENT, name):
-                self.bail(stmt, "local name `%s`" % name)
+        self.check_new_names(stmt, names)
         special = [self.bind_special(v) for _, v in pairs]
         terms = [None if sp is not None else self.tr(v) for sp, (_, v) in zip(special, pairs)]
         out = []
@@ -323,6 +330,16 @@ class Expr:
         """None, or a function registering the name for a right-hand side that is not a number"""
         return None
 
+    def check_new_names(self, stmt, names):
+        for name in names:
+            if name in self.locals or name in self.intvars or name in self.arrvars or name in self.unitvars \
+                    or names.count(name) > 1:
+                self.bail(stmt, "name `%s` is assigned twice (locals and parameters are single-assignment)" % name)
+            if name in self.RESERVED or self.is_reserved(name):
+                self.bail(stmt, "assignment to the reserved name `%s`" % name)
+            if not re.fullmatch(IDENT, name):
+                self.bail(stmt, "local name `%s`" % name)
+
     def is_reserved(self, name):
         return False
 
@@ -334,7 +351,7 @@ class Expr:
             return ("int", self.intvars[a.id])
         return ("term", self.tr(a))
 
-    def inline(self, e, fn):
+    def inline(self, e, fn, tuple_len=None):
         """call of a helper `def f(p1, .., pn): [doc] (locals)* return expr` with n positional arguments:
         the parameters are let-bound to the translated arguments (call by value of pure expressions), the
         body is translated in a scope that sees only the parameters and its own locals."""
@@ -378,8 +395,17 @@ class Expr:
             for pyname, ident, term, _ in child.bind(s, prefix="h%d_" % k):
                 lets.append((ident, term))
                 child.locals[pyname] = ident
-        ret = child.tr(body[-1].value)
-        return "(" + "".join("let %s := %s in " % (i, t) for i, t in lets) + ret + ")"
+        pre = "".join("let %s := %s in " % (i, t) for i, t in lets)
+        rv = body[-1].value
+        if tuple_len is None:
+            if isinstance(rv, ast.Tuple):
+                self.bail(e, "helper `%s` returns a tuple where a number is expected" % name)
+            return "(" + pre + child.tr(rv) + ")"
+        # the helper returns a literal tuple that the caller unpacks: one term per component (the helper is pure, so
+        # repeating its let-bound locals in every component does not change any value)
+        if not isinstance(rv, ast.Tuple) or len(rv.elts) != tuple_len or any(isinstance(x, ast.Starred) for x in rv.elts):
+            self.bail(e, "helper `%s` does not return a literal tuple of %d expressions" % (name, tuple_len))
+        return ["(" + pre + child.tr(x) + ")" for x in rv.elts]
 
 
 # =====================================================================================
